@@ -134,10 +134,15 @@ class _EventQueue:
         return [event for _priority, _count, (event, _channels) in self._queue]
 
     def drainFrom(self, other_queue):
+        # The other queue may be in the middle of a flush (its component
+        # registers elsewhere from one of its own handlers): the rest of
+        # that batch moves as well, in the order it would have been
+        # dispatched, and the interrupted flush finds nothing left to do.
+        while other_queue._priority_queue:
+            self._queue.append(heappop(other_queue._priority_queue))
+        other_queue._flush_batch = 0
         self._queue.extend(other_queue._queue)
         other_queue._queue.clear()
-        # Queue is currently flushing events /o\
-        assert not len(other_queue._priority_queue)
 
     def append(self, event, channel, priority):
         self._counter += 1
